@@ -105,8 +105,11 @@ func ParseFragment(b []byte) (FragInfo, error) {
 	}
 	f.K, f.N = k, n
 	rest = rest[12:]
-	if len(rest) < 2 || rest[len(rest)-1] != ',' {
-		return f, errors.New("refotr: fragment: missing piece or trailing comma")
+	// The piece may be empty: the format is "%s," and an empty string matches
+	// it (otr3 emits an empty last piece when the length is a multiple of the
+	// payload size; reassembly is unaffected).
+	if len(rest) < 1 || rest[len(rest)-1] != ',' {
+		return f, errors.New("refotr: fragment: missing trailing comma")
 	}
 	piece := rest[:len(rest)-1]
 	if bytes.IndexByte(piece, ',') >= 0 {
